@@ -204,6 +204,149 @@ def gen_case(rng):
 
 
 # --------------------------------------------------------------------------
+# HUGE coefficients (Python ints / Z are exact; anything going through binary64 - log2, float division, 1e18 - is not)
+# --------------------------------------------------------------------------
+def huge_values():
+    ks = [31, 32, 33] + list(range(49, 65)) + [100]
+    out = [(1 << k) + d for k in ks for d in (-1, 0, 1)]
+    out += [10 ** e + d for e in range(15, 20) for d in (-1, 0, 1)]
+    out += [(1 << 53) + 2, (1 << 62) - 3, 3 * (1 << 52), (1 << 64) - (1 << 10) - 1]
+    return out
+
+
+HUGE = huge_values()
+HUGE_EDGE = [(1 << k) + d for k in list(range(49, 65)) + [100] for d in (-1, 1)]     # where binary64 cannot tell them apart
+HUGE_BITS = 320      # the decomposition construction recurses once per set bit position of every coefficient: the total
+                     # bit length of a posted inequality stays far below the interpreter's recursion limit
+
+
+def gen_huge_ineq(rng, names):
+    """one to three huge coefficients (2^k-1, 2^k, 2^k+1, 10^e ...) next to small ones that can reach a small bound on
+    their own; the bound is small, or sits within a few units of a sum of the huge coefficients"""
+    nv = len(names)
+    vs = rng.sample(names, rng.randint(2, nv))
+    nh = rng.choice([1, 1, 1, 2, 2, 3])
+    nh = min(nh, len(vs) - 1) if rng.random() < 0.8 else min(nh, len(vs))
+    big = []
+    for _ in range(nh):
+        c = rng.choice(HUGE_EDGE if rng.random() < 0.5 else HUGE)
+        if big and rng.random() < 0.35:
+            c = rng.choice([big[0], big[0] + 1, big[0] - 1, 2 * big[0], big[0] // 2])    # ties / neighbours / doubles
+        if sum(x.bit_length() for x in big) + c.bit_length() > HUGE_BITS:
+            c = rng.choice(HUGE[:9])
+        big.append(c)
+    small = [rng.choice([1, 1, 1, 2, 2, 3, 5]) for _ in vs[nh:]]
+    cs = big + small
+    # the constraint in normal form: sum c*lit >= nb with every c > 0 ...
+    lt = [[v, rng.random() < 0.75, c] for v, c in zip(vs, cs)]
+    ssum = sum(small)
+    mode = rng.random()
+    if mode < 0.3 and ssum >= 1:
+        nb = ssum                                    # TIGHT: reached by the small terms alone, all of them
+    elif mode < 0.5:
+        drop = [c for c in big if rng.random() < 0.6] or big[:1]
+        nb = sum(cs) - sum(drop)                     # TIGHT: everything but some huge terms
+    elif mode < 0.6:
+        nb = sum(c for c in cs if rng.random() < 0.5) or 1        # a subset sum
+    elif mode < 0.7 and ssum >= 1:
+        nb = rng.randint(1, ssum)
+    elif mode < 0.9:
+        sub = sum(c for c in big if rng.random() < 0.6) or big[0]
+        nb = sub + rng.choice([-2, -1, 0, 1, 2, ssum, ssum + 1, -ssum])
+    else:
+        nb = sum(cs) + rng.choice([-ssum - 1, -1, 0, 1])
+    op = rng.choice(["GE", "GE", "GE", "GE", "LE", "LE", "LE", "GT", "LT", "EQ"])
+    b = nb
+    # ... written the way a user may: some terms as -c * (the complement) (c*l = c - c*(not l)), the whole thing as <=
+    for t in lt:
+        if rng.random() < 0.15:
+            b -= t[2]
+            t[1], t[2] = not t[1], -t[2]
+    if op in ("LE", "LT"):
+        # sum c*l >= b  is  sum c*(not l) <= total - b
+        b = sum(t[2] for t in lt) - b
+        lt = [[v, not sg, c] for v, sg, c in lt]
+    rng.shuffle(lt)
+    return {"k": "ineq", "lt": lt, "rt": [], "b": b, "op": op, "decomp": rng.random() < 0.6,
+            "via": rng.choice(["ctor", "operator"])}
+
+
+def gen_huge_case(rng):
+    nv = rng.choice([3, 3, 4, 4, 5, 6])
+    names = NAMES[:nv]
+    posts = [gen_huge_ineq(rng, names) for _ in range(rng.choice([1, 1, 1, 2]))]
+    if rng.random() < 0.3:
+        posts.insert(rng.randrange(len(posts) + 1), gen_post(rng, names))
+    hist = []
+    for _ in range(rng.choice([0, 0, 1, 2])):
+        h = dict(rng.choice(posts)) if rng.random() < 0.5 else gen_huge_ineq(rng, names)
+        if h["k"] == "ineq" and rng.random() < 0.5:
+            h["decomp"] = not h["decomp"]
+        hist.append(h)
+    if rng.random() < 0.5:
+        # the deprecated / rarely used part of the manager's interface, by the earlier manager, on the same names
+        hist.insert(rng.randrange(len(hist) + 1), gen_api_call(rng, names))
+    order = list(names)
+    rng.shuffle(order)
+    ev = [{"c": rng.choice([0, 1, -(1 << 60)]), "t": [[v, rng.random() < 0.6, rng.choice(HUGE)] for v in names[:3]]}]
+    return {"history": hist, "posts": [{"k": "newvar", "v": v} for v in order] + posts, "evals": ev}
+
+
+API_METHODS = ["prioritize", "prioritize", "prioritize", "setflipped", "isflipped", "newaux", "printclauses", "tocnf",
+               "solve", "value", "evalexpr", "newvar_pre"]
+
+
+def gen_api_call(rng, names):
+    """a call of one of the public methods of SATManager that post nothing (history only)"""
+    m = rng.choice(API_METHODS)
+    vs = rng.sample(names, rng.randint(1, min(3, len(names))))
+    neg = rng.random() < 0.6
+    return {"k": "api", "m": m, "lits": [[v, (not neg) if rng.random() < 0.8 else neg] for v in vs]}
+
+
+def do_api(sm, p):
+    """history only; whatever it raises stays in the history"""
+    import contextlib, io
+    from tools.rect.pseudobool import Literal, Expr
+    lits = [Literal(PRE + v, s) for v, s in p["lits"]]
+    m = p["m"]
+    with contextlib.redirect_stdout(io.StringIO()):
+        if m == "prioritize":
+            # negated literals first: the flips are recorded before a positive one makes the deprecated code raise
+            sm.prioritize(sorted(lits, key=lambda l: l.s))
+        elif m == "setflipped":
+            for l in lits:
+                sm.setflipped(l.v, True)
+            if len(lits) > 1:
+                sm.setflipped(lits[-1].v, False)
+        elif m == "isflipped":
+            [sm.isflipped(l.v) for l in lits]
+        elif m == "newaux":
+            sm.newaux()
+        elif m == "printclauses":
+            sm.printclauses()
+        elif m == "tocnf":
+            sm.tocnf()
+        elif m == "solve":
+            sm.solve()
+        elif m == "value":
+            sm.solve()
+            [sm.value(l) for l in lits]
+        elif m == "evalexpr":
+            sm.solve()
+            e = Expr()
+            for l in lits:
+                e = e + l
+            sm.evalexpr(e)
+        elif m == "newvar_pre":
+            for l in lits:
+                sm.newvar(l.v[len(PRE):], "")
+                sm.newvar(l.v[len(PRE):], "aux")
+        else:
+            raise ValueError(m)
+
+
+# --------------------------------------------------------------------------
 # running the implementation
 # --------------------------------------------------------------------------
 def build_expr(terms, const, spell):
@@ -264,6 +407,8 @@ def do_post(sm, p):
             q = build_ineq(p)
             extra = ineq_norm(q)
             sm.pseudoboolencoding(q, p["decomp"])
+        elif k == "api":
+            do_api(sm, p)
         else:
             raise ValueError(k)
     except Exception as e:
@@ -1402,7 +1547,15 @@ def run(ctx, out, replay=None):
                 "row, so the store passes T between two of its own posts: one of its first inequalities plus a heavier "
                 "literal (new root over the nodes with the smallest ids), a fresh one, that first inequality again (no "
                 "new node), a fresh one; a second manager spans the chunk (an early inequality before the growth, a "
-                "fresh one after the landing)")
+                "fresh one after the landing). "
+                "HUGE coefficients (200 cases quick, 2000 thorough; 3..6 variables): inequalities with one to three "
+                "coefficients from 2^k-1, 2^k, 2^k+1 (k = 31..33, 49..64, 100), 10^15..10^19 (+-1) and a few odd ones "
+                "(ties, neighbours, doubles and halves of each other; either sign), next to coefficients 1..5, with a "
+                "bound the small terms reach on their own or within a few units of a sum of huge ones, all operators, "
+                "both constructions (60% coefficient decomposition), after 0-2 earlier huge encodings and, half of the "
+                "time, a call by the EARLIER manager of a public method that posts nothing (prioritize with negated "
+                "literals, setflipped, isflipped, newaux, printclauses, tocnf, solve, value, evalexpr, newvar with "
+                "another prefix) on the same variable names")
     cases = []
     if replay and "case" in replay:
         cases.append(fr.unjson(replay["case"]))
@@ -1424,6 +1577,9 @@ def run(ctx, out, replay=None):
     # (10^3 and 2^10 are too close for both to be landed on in one run: every other case skips 10^3)
     cases += [dict(gen_big_case(brng, t, chunk=300), skip=[1000] if i % 2 else [])
               for i, t in enumerate([6000, 6000] if ctx.quick() else [6000, 6000, 12000, 12000])]
+    # HUGE coefficients (a generator of its own as well: the streams above are unchanged)
+    hrng = random.Random(ctx.rng.randrange(1 << 30))
+    cases += [gen_huge_case(hrng) for _ in range(200 if ctx.quick() else 2000)]
     stats = {"refused_posts": 0, "cases_building_nodes": 0, "cases_reusing_earlier_nodes": 0, "unsat_instances": 0,
              "max_initial_memory": 0, "max_new_nodes": 0, "nodes_codified": 0,
              "ineq_via_diagram": 0, "ineq_as_clause_or_tautology": 0}
